@@ -470,6 +470,7 @@ int main(void)
 	int i, w, n;
 
 	setvbuf(stdout, NULL, _IOLBF, 1 << 16);
+	alarm(60);	/* watchdog: a library call that does not return ends the run with SIGALRM */
 	iv_init();
 	printf("CONST %u %u %u\n", EVSZ, (unsigned)IN_IGNORED, (unsigned)IN_ONESHOT);
 	while (fgets(line, sizeof(line), stdin) != NULL) {
